@@ -2,7 +2,6 @@ package object
 
 import (
 	"context"
-	"fmt"
 
 	"github.com/risor-io/risor/errz"
 	"github.com/risor-io/risor/op"
@@ -21,7 +20,7 @@ func (iter *MapIter) Type() Type {
 }
 
 func (iter *MapIter) Inspect() string {
-	return fmt.Sprintf("map_iter(%s)", iter.m.Inspect())
+	return iter.inspectVisit(newInspectVisit())
 }
 
 func (iter *MapIter) String() string {
